@@ -145,6 +145,22 @@ def install_hooks():
     CS = workflow.ComponentState
     C = control.Controller
 
+    # Invariant at a hook: every assignment of ComponentState.controllerState is recorded (old -> new) by a data
+    # descriptor put on the class from here (no repository edit), so "exactly one final state" is decided on the
+    # assignments themselves and not on the samples the controller happens to take.
+    def _cstate_get(self):
+        return self.__dict__.get("_verif_cstate")
+
+    def _cstate_set(self, value):
+        old = self.__dict__.get("_verif_cstate")
+        self.__dict__["_verif_cstate"] = value
+        try:
+            if value != old and _cur(self):
+                REC.record("cs.state", _ref_of(self), old=old, new=value)
+        except Exception:
+            pass
+    CS.controllerState = property(_cstate_get, _cstate_set)
+
     o_run = CS.run
 
     def cs_run(self):
@@ -406,8 +422,10 @@ def run_scenario(flowir: str, script: Dict[str, Any], location: str, perturb_see
                  watchdog_s: float = 90.0, continue_on_error: bool = False,
                  extra_files: Optional[Dict[str, str]] = None, point_hooks=None,
                  on_controller: Optional[Callable[[Any], None]] = None,
-                 max_launches: Optional[int] = None) -> Dict[str, Any]:
-    """Runs all stages like scripts/elaunch.py:Run and returns the observed outcome + events."""
+                 max_launches: Optional[int] = None, linger_v: float = 0.0) -> Dict[str, Any]:
+    """Runs all stages like scripts/elaunch.py:Run and returns the observed outcome + events.
+    linger_v: virtual seconds the harness keeps observing after the stage loop has returned (checks that are still
+    in flight on controller threads, e.g. a 25 s post-mortem analysis, complete inside this window)."""
     CTX.current_root = location
     BACKEND.current_root = location
     REC.reset()
@@ -510,6 +528,11 @@ def run_scenario(flowir: str, script: Dict[str, Any], location: str, perturb_see
     if not finished:
         res["stuck_diag"] = diagnose_stuck(ctrl)
     res["final_states"] = _states(ctrl)
+    REC.record("harness.states", None, key="final_states", states=dict(res["final_states"]))
+    if finished and linger_v:
+        dilate.vsleep(linger_v)
+        res["late_states"] = _states(ctrl)
+        REC.record("harness.states", None, key="late_states", states=dict(res["late_states"]))
     res["stage_states"] = {i: _safe(lambda i=i: s.state) for i, s in ctrl._stageStates.items()}
     res["consume"] = {}
     for n, d in ctrl.graph.nodes(data=True):
